@@ -419,6 +419,18 @@ Section ReaderProofs.
     - destruct Hone as [[x Hx]|[x Hx]]; discriminate.
   Qed.
 
+  (* reader[s] for a non-tuple s = NumPy row indexing M[s] = M[s, :] *)
+  Lemma getitem_single M s :
+    calibrated_sorted cal raw order gain = Some M ->
+    getitem cal None raw nc order gain (ISel s)
+      = bind (np_index2 M ns nc s (SSlice None None None)) (fun r => Ok (Some r)).
+  Proof.
+    intros HM. unfold getitem. rewrite (read_eq_np_index M s (SSlice None None None) HM).
+    - reflexivity.
+    - apply andb_false_r.
+    - right. eexists. reflexivity.
+  Qed.
+
   (* both selectors invalid: both sides raise; the reader reports the channel selector's error *)
   Lemma read_both_invalid (M : list (list V)) nsel csel er ec :
     sel_positions ns nsel = Err er -> sel_positions nc csel = Err ec ->
